@@ -66,6 +66,8 @@ func (s *Solver) start() error {
 		cmd = exec.Command("z3-new", "-in", fmt.Sprintf("-t:%d", ms))
 	case "cvc5":
 		cmd = exec.Command("cvc5", "--incremental", "--lang=smt2", "--produce-models", fmt.Sprintf("--tlimit-per=%d", ms))
+	case "cvc5-int":
+		cmd = exec.Command("cvc5", "--incremental", "--lang=smt2", "--produce-models", "--solve-bv-as-int=sum", fmt.Sprintf("--tlimit-per=%d", ms))
 	default:
 		return fmt.Errorf("unknown solver %q", s.Kind)
 	}
@@ -99,7 +101,7 @@ func (s *Solver) start() error {
 			}
 		}
 	}(s.out, s.lines)
-	if s.Kind != "cvc5" {
+	if !strings.HasPrefix(s.Kind, "cvc5") {
 		s.send("(set-option :produce-models true)\n")
 	} else {
 		s.send("(set-logic ALL)\n")
